@@ -265,6 +265,15 @@ func (s *Service) UpdateSyncCommitteeDataRecord(
 ) {
 	s.slotDataRecordsMu.Lock()
 	s.slotDataRecords[slot] = synccommitteemessenger.SlotData{Root: root, ValidatorToCommitteeIndex: validatorToCommitteeIndex}
+	// Keep the records bounded even if nobody asks for historic data to be removed.
+	if slot > minSlotDataRecordsToKeep {
+		lowestSlotToKeep := slot - minSlotDataRecordsToKeep
+		for recordSlot := range s.slotDataRecords {
+			if recordSlot < lowestSlotToKeep {
+				delete(s.slotDataRecords, recordSlot)
+			}
+		}
+	}
 	s.slotDataRecordsMu.Unlock()
 }
 
